@@ -64,8 +64,13 @@ var (
 	flagIDKinds string
 )
 
+var curDeg []string
+
 func emit(a string, ev map[string]any) {
 	kseq++
+	if _, has := ev["pol"]; has {
+		ev["deg"] = append([]string{}, curDeg...)
+	}
 	ev["a"] = a
 	ev["k"] = fmt.Sprintf("%s#%d", a, kseq)
 	w.Emit(ev)
@@ -79,6 +84,21 @@ func must[T any](v T, err error) T {
 }
 
 func errStr(err error) string { return tr.ErrClass(err) }
+
+// tryV is try for a variadic call f(args...).
+func tryV[A any, T any](f func(...A) (T, error), args []A) (T, error) {
+	return try(func() (T, error) { return f(args...) })
+}
+
+// try runs a library call and turns a panic into an error (logged as such; the specification decides).
+func try[T any](f func() (T, error)) (v T, err error) {
+	defer func() {
+		if r := recover(); r != nil {
+			err = fmt.Errorf("PANIC: %v", r)
+		}
+	}()
+	return f()
+}
 
 // ---------------------------------------------------------------- small helpers
 
@@ -310,6 +330,7 @@ type policy struct {
 	ac      accessstructures.Monotone
 	acErr   error
 	subs    [][]uint64
+	deg     []string
 }
 
 func (p *policy) mapIDs(v []int) []uint64 {
@@ -377,7 +398,44 @@ func realize(ap apol, ids []uint64, idkind string) *policy {
 		p.ac, p.acErr = boolexpr.NewThresholdGateAccessStructure(rn)
 	}
 	p.rec = rec
+	if p.acErr == nil {
+		p.deg = degeneracy(p)
+	}
 	return p
+}
+
+// degeneracy tags a policy (for naming cases only): "dummy" if some holder never matters,
+// "solo" if some holder is qualified alone, "none" if no set is qualified.  It is read off the
+// library's own IsQualified, which the "access" line validates against the specification.
+func degeneracy(p *policy) []string {
+	out := []string{}
+	dummy, solo := false, false
+	for _, h := range p.holders {
+		matters := false
+		for _, s := range p.subs {
+			with := append(append([]uint64{}, s...), h)
+			if p.ac.IsQualified(toIDs(with)...) != p.ac.IsQualified(toIDs(s)...) {
+				matters = true
+				break
+			}
+		}
+		if !matters {
+			dummy = true
+		}
+		if p.ac.IsQualified(ID(h)) {
+			solo = true
+		}
+	}
+	if !p.ac.IsQualified(toIDs(p.holders)...) {
+		out = append(out, "none")
+	}
+	if dummy {
+		out = append(out, "dummy")
+	}
+	if solo {
+		out = append(out, "solo")
+	}
+	return out
 }
 
 // ---- enumeration of abstract policies
@@ -749,10 +807,10 @@ func doAccess(p *policy) {
 }
 
 func doMSP(p *policy) *mspInfo {
-	m, err := accessstructures.InducedMSP(field, p.ac)
+	m, err := try(func() (*msp.MSP[S], error) { return accessstructures.InducedMSP(field, p.ac) })
 	ev := map[string]any{"pol": p.rec, "idkind": p.idkind, "ok": err == nil, "err": errStr(err), "M": [][]uint64{}, "lab": emptyU(),
 		"subs": p.subs, "acc": []bool{}, "can": []bool{}, "cert": []any{}, "rv": [][]uint64{}, "ideal": false}
-	sc, err2 := kw.NewScheme(field, p.ac)
+	sc, err2 := try(func() (*kw.Scheme[S], error) { return kw.NewScheme(field, p.ac) })
 	ev["schemeok"] = err2 == nil
 	if err != nil {
 		emit("msp", ev)
@@ -816,7 +874,7 @@ func kwSubsetResults(p *policy, shares kwShares, rec func(sh ...*kw.Share[S]) (*
 		}
 		r := map[string]any{"ok": false, "v": 0, "missing": missing}
 		if !missing {
-			if sec, err := rec(sel...); err == nil {
+			if sec, err := try(func() (*kw.Secret[S], error) { return rec(sel...) }); err == nil {
 				r["ok"], r["v"] = true, sec.Value().Int()
 			}
 		}
@@ -828,7 +886,7 @@ func kwSubsetResults(p *policy, shares kwShares, rec func(sh ...*kw.Share[S]) (*
 				vals := []uint64{}
 				ok := true
 				for _, sh := range sel {
-					as, err := conv(sh, qm)
+					as, err := try(func() (*additive.Share[S], error) { return conv(sh, qm) })
 					if err != nil {
 						ok = false
 						break
@@ -1073,7 +1131,7 @@ func doShamir(p *policy, secrets []uint64, pr interface{ Uint64N(uint64) uint64 
 					sel = append(sel, shares[id])
 				}
 				r := map[string]any{"ok": false, "v": 0, "missing": false}
-				if v, err := sc.Reconstruct(sel...); err == nil {
+				if v, err := tryV(sc.Reconstruct, sel); err == nil {
 					r["ok"], r["v"] = true, v.Value().Int()
 				}
 				recs[i] = r
@@ -1084,7 +1142,7 @@ func doShamir(p *policy, secrets []uint64, pr interface{ Uint64N(uint64) uint64 
 					vals := []uint64{}
 					ok := true
 					for _, sh := range sel {
-						as, err := sc.ConvertShareToAdditive(sh, qm)
+						as, err := try(func() (*additive.Share[S], error) { return sc.ConvertShareToAdditive(sh, qm) })
 						if err != nil {
 							ok = false
 							break
@@ -1122,7 +1180,7 @@ func doShamir(p *policy, secrets []uint64, pr interface{ Uint64N(uint64) uint64 
 				sel = append(sel, m[id])
 			}
 			r := map[string]any{"ok": false, "v": 0, "missing": false}
-			if v, err := sc.Reconstruct(sel...); err == nil {
+			if v, err := tryV(sc.Reconstruct, sel); err == nil {
 				r["ok"], r["v"] = true, v.Value().Int()
 			}
 			recs[i] = r
@@ -1157,7 +1215,7 @@ func doAdditive(p *policy, secrets []uint64) {
 			}
 			r := map[string]any{"ok": false, "v": 0, "missing": false}
 			if len(sel) > 0 {
-				if v, err := sc.Reconstruct(sel...); err == nil {
+				if v, err := tryV(sc.Reconstruct, sel); err == nil {
 					r["ok"], r["v"] = true, v.Value().Int()
 				}
 			}
@@ -1170,7 +1228,7 @@ func doAdditive(p *policy, secrets []uint64) {
 
 // ---- ISN (any access structure with identifiers <= 64)
 func doISN(p *policy, secrets []uint64) {
-	sc, err := isn.NewFiniteScheme[S](field, p.ac)
+	sc, err := try(func() (*isn.Scheme[S], error) { return isn.NewFiniteScheme[S](field, p.ac) })
 	if err != nil {
 		emit("isn", map[string]any{"pol": p.rec, "ok": false, "err": errStr(err), "subs": p.subs})
 		return
@@ -1231,7 +1289,7 @@ func doISN(p *policy, secrets []uint64) {
 			}
 			r := map[string]any{"ok": false, "v": 0, "missing": len(sel) != len(s)}
 			if len(sel) == len(s) {
-				if v, err := sc.Reconstruct(sel...); err == nil {
+				if v, err := tryV(sc.Reconstruct, sel); err == nil {
 					r["ok"], r["v"] = true, v.Value().Int()
 				}
 			}
@@ -1243,7 +1301,7 @@ func doISN(p *policy, secrets []uint64) {
 				vs := []uint64{}
 				ok := true
 				for _, sh := range sel {
-					as, err := sc.ConvertShareToAdditive(sh, qm)
+					as, err := try(func() (*additive.Share[S], error) { return sc.ConvertShareToAdditive(sh, qm) })
 					if err != nil {
 						ok = false
 						break
@@ -1294,7 +1352,7 @@ func doTassa(p *policy, secrets []uint64, pr interface{ Uint64N(uint64) uint64 }
 				sel = append(sel, shares[id])
 			}
 			r := map[string]any{"ok": false, "v": 0, "missing": false}
-			if v, err := sc.Reconstruct(sel...); err == nil {
+			if v, err := tryV(sc.Reconstruct, sel); err == nil {
 				r["ok"], r["v"] = true, v.Value().Int()
 			}
 			recs[i] = r
@@ -1305,7 +1363,7 @@ func doTassa(p *policy, secrets []uint64, pr interface{ Uint64N(uint64) uint64 }
 				vs := []uint64{}
 				ok := true
 				for _, sh := range sel {
-					as, err := sc.ConvertShareToAdditive(sh, qm)
+					as, err := try(func() (*additive.Share[S], error) { return sc.ConvertShareToAdditive(sh, qm) })
 					if err != nil {
 						ok = false
 						break
@@ -1367,6 +1425,7 @@ func runC02(pols []*policy) {
 		if p.acErr != nil {
 			panic(fmt.Sprintf("generator produced a policy the constructor refuses: %v %v", p.rec, p.acErr))
 		}
+		curDeg = p.deg
 		doAccess(p)
 		info := doMSP(p)
 		secrets := secretsFor(pr)
@@ -1464,6 +1523,7 @@ func runC05(pols []*policy) {
 		if p.acErr != nil {
 			continue
 		}
+		curDeg = p.deg
 		fs, err := feldman.NewScheme(group, p.ac)
 		if err != nil {
 			emit("fnew", map[string]any{"pol": p.rec, "ok": false, "err": errStr(err)})
@@ -1515,7 +1575,7 @@ func runC05(pols []*policy) {
 			return dl
 		}
 		verify := func(id uint64, lam []uint64, V []uint64, tag string) fcase {
-			c := fcase{"id": id, "lam": lam, "V": V, "tag": tag, "ok": false, "built": true}
+			c := fcase{"id": id, "lam": lam, "V": V, "tag": tag, "ok": false, "built": true, "j": 0}
 			if len(lam) == 0 {
 				c["built"] = false
 				return c
@@ -1553,7 +1613,9 @@ func runC05(pols []*policy) {
 				}
 				for j := 0; j < d; j++ {
 					for _, dv := range dls {
-						cases = append(cases, verify(id, lam, addAt(dl.V, j, dv), "vventry"))
+						c := verify(id, lam, addAt(dl.V, j, dv), "vventry")
+						c["j"] = j + 1
+						cases = append(cases, c)
 					}
 				}
 				cases = append(cases, verify(id, lam, dl.V[:d-1], "vvshort"))
@@ -1564,7 +1626,8 @@ func runC05(pols []*policy) {
 			return cases
 		}
 		dl := fdeal(secretsFor(pr)[pr.Uint64N(3)])
-		emit("fverify", mk(map[string]any{"cases": tamperCases(dl)}))
+		emit("fverify", mk(map[string]any{"V0": dl.V, "cases": tamperCases(dl),
+			"shares": shareList(holdersWithRows, func(id uint64) ([]uint64, bool) { return dl.shares[id], true })}))
 
 		// constructor dimension rule
 		nv := []fcase{}
@@ -1765,7 +1828,7 @@ func runC05(pols []*policy) {
 			return sh, err == nil
 		}
 		pverify := func(id uint64, sec, bl, V []uint64, tag string) fcase {
-			c := fcase{"id": id, "sec": sec, "bl": bl, "V": V, "tag": tag, "ok": false, "built": true}
+			c := fcase{"id": id, "sec": sec, "bl": bl, "V": V, "tag": tag, "ok": false, "built": true, "j": 0}
 			sh, ok := mkP(id, sec, bl)
 			if !ok {
 				c["built"] = false
@@ -1800,7 +1863,9 @@ func runC05(pols []*policy) {
 				}
 				for j := 0; j < d; j++ {
 					for _, dv := range dls {
-						cases = append(cases, pverify(id, sec, bl, addAt(x.V, j, dv), "vventry"))
+						c := pverify(id, sec, bl, addAt(x.V, j, dv), "vventry")
+						c["j"] = j + 1
+						cases = append(cases, c)
 					}
 				}
 				cases = append(cases, pverify(id, sec, bl, x.V[:d-1], "vvshort"))
@@ -1810,7 +1875,9 @@ func runC05(pols []*policy) {
 			return cases
 		}
 		pd := pdeal(secretsFor(pr)[pr.Uint64N(3)])
-		emit("pverify", mk(map[string]any{"eta": et, "cases": ptamper(pd)}))
+		emit("pverify", mk(map[string]any{"eta": et, "cases": ptamper(pd), "V0": pd.V,
+			"sec": shareList(holdersWithRows, func(id uint64) ([]uint64, bool) { return pd.sec[id], true }),
+			"bl":  shareList(holdersWithRows, func(id uint64) ([]uint64, bool) { return pd.bl[id], true })}))
 		pd2 := pdeal(pr.Uint64N(q))
 		// combination of two Pedersen dealings
 		vv, operr := vvFromLogs(pd.V).Op(vvFromLogs(pd2.V))
